@@ -370,9 +370,12 @@ class RunLengthArray(NPSIndexable, np.lib.mixins.NDArrayOperatorsMixin):
             return self.__class__(self._events, ufunc(self._values))
         assert len(inputs) == 2, f"Only unary and binary operations supported for runlengtharray {len(inputs)}"
 
-        if isinstance(inputs[1], Number):
+        def is_scalar(x):
+            return isinstance(x, (Number, np.generic)) or (isinstance(x, np.ndarray) and x.ndim == 0)
+
+        if is_scalar(inputs[1]):
             return self.__class__(self._events, ufunc(self._values, inputs[1]))
-        elif isinstance(inputs[0], Number):
+        elif is_scalar(inputs[0]):
             return self.__class__(self._events, ufunc(inputs[0], self._values))
         return self._apply_binary_func(*inputs, ufunc)
 
